@@ -110,6 +110,22 @@ fn variants(deep: bool) -> Vec<Variant> {
                 });
             }
         }
+        // long lines and many lines (the relative encoding and the line / column counters have a width)
+        if d.name == corpus::docs()[0].name {
+            for len in [250usize, 255, 256, 257, 65534, 65535, 65536, 65537, 70000] {
+                let pad = "x".repeat(len);
+                let sp = spell_with(lx, &format!("(* {} *) ", pad), "\n", &|_, g| match g {
+                    Glue::Blank => " ".to_string(),
+                    _ => String::new(),
+                });
+                out.push(Variant { doc: d.name.into(), label: "long-first-line".into(), site: format!("{}", len), spelled: sp, valid: true });
+                let sp = spell_with(lx, &"\n".repeat(len), "\n", &|_, g| match g {
+                    Glue::Blank => " ".to_string(),
+                    _ => String::new(),
+                });
+                out.push(Variant { doc: d.name.into(), label: "many-leading-lines".into(), site: format!("{}", len), spelled: sp, valid: true });
+            }
+        }
         // leading / trailing trivia
         for (mname, mtext) in &menu {
             let sp = spell_with(lx, mtext, mtext, &|_, g| match g {
